@@ -1,106 +1,3 @@
-/-
-  Props/C20.lean — metric consumers agree with what happened.
-  The consumers are functions of the callbacks the circuit delivers (C05: exactly one per attempt, of the right kind,
-  identically to every collector), so "any history of calls" is any list of delivered callbacks.
--/
-import CircuitModel.Spec.C20
-import CircuitProofs.Lemmas.Cons
-namespace CM.Props.C20
-open CM CM.Cons CM.SpecC20
-
-/-- the history record the specification keeps is just the delivered callbacks -/
-def histOf (emits : List Emit) : Hist := emits.foldl Hist.add {}
-
-/-- TOTALS: after ANY history, for every window/percentile configuration, each run kind's TotalSum is the number of
-    events of that kind, and likewise for the three fallback kinds -/
-theorem totals_eq_counts (n : Nat) (dur : Int) (pn : Nat) (pdur : Int) (psize : Nat) (mh : Int) (emits : List Emit) :
-    let a := (All.new n dur pn pdur psize mh).feed emits
-    a.run.totals = kinds.map (total (histOf emits)) ∧
-    [a.fb.successes.total, a.fb.rejects.total, a.fb.failures.total] = fbKinds.map (fbTotal (histOf emits)) := by
-  intro a
-  refine ⟨?_, ?_⟩
-  · rw [totals_eq]
-    apply List.map_congr_left
-    intro k _
-    exact total_getR k n dur pn pdur psize mh emits
-  · show fbKinds.map (fun k => (getF k a.fb).total) = _
-    apply List.map_congr_left
-    intro k _
-    exact total_getF k n dur pn pdur psize mh emits
-
-/-- the times of a history are non-negative, non-decreasing and not after `now` (the harness's clock; one
-    unambiguous window) -/
-def emitTime : Emit → Int
-  | .run _ t _ | .fb _ t _ | .opened t | .closed t => t
-def monotoneUpTo (now : Int) : List Emit → Bool
-  | [] => decide (0 ≤ now)
-  | e :: rest => decide (0 ≤ emitTime e) && (rest.all fun e' => decide (emitTime e ≤ emitTime e')) && decide (emitTime e ≤ now) && monotoneUpTo now rest
-
-/-- ROLLING SUMS: for such histories, each kind's rolling sum read at `now` is the number of events of that kind
-    inside the window ending at `now` -/
-theorem rolling_eq_windowed (n : Nat) (dur : Int) (pn : Nat) (pdur : Int) (psize : Nat) (mh : Int) (hn : 0 < n)
-    (hw : 0 < tdiv dur n) (emits : List Emit) (now : Int) (hmono : monotoneUpTo now emits = true) :
-    let a := (All.new n dur pn pdur psize mh).feed emits
-    (a.run.sums now).2 = kinds.map (fun k => rolling n (tdiv dur n) (histOf emits) k now) := by
-  intro a
-  have key : ∀ l : List Emit, monotoneUpTo now l = true → 0 ≤ now ∧ ∀ e ∈ l, emitTime e ≤ now := by
-    intro l
-    induction l with
-    | nil => intro h; exact ⟨by simpa [monotoneUpTo] using h, by simp⟩
-    | cons e l ih =>
-      intro h
-      simp only [monotoneUpTo, Bool.and_eq_true, decide_eq_true_eq] at h
-      obtain ⟨⟨⟨_, _⟩, hle⟩, hrest⟩ := h
-      obtain ⟨i0, il⟩ := ih hrest
-      refine ⟨i0, fun e' he' => ?_⟩
-      rcases List.mem_cons.mp he' with rfl | he'
-      · exact hle
-      · exact il e' he'
-  obtain ⟨h0, hle⟩ := key emits hmono
-  rw [sums_snd]
-  apply List.map_congr_left
-  intro k _
-  exact rolling_getR k n dur pn pdur psize mh hn hw emits now h0 (fun k t d h => hle _ h)
-
-/-- ROLLING SUMS, ANY ORDER: the same for callbacks delivered in ANY timestamp order (completions stamped late — by less
-    or by more than a window —, set-back clocks, events before the start), as long as the read is not older than what
-    was delivered: only `0 ≤ now` and "every stamp ≤ now" are needed -/
-theorem rolling_eq_windowed_any_order (n : Nat) (dur : Int) (pn : Nat) (pdur : Int) (psize : Nat) (mh : Int) (hn : 0 < n)
-    (hw : 0 < tdiv dur n) (emits : List Emit) (now : Int) (h0 : 0 ≤ now) (hle : ∀ e ∈ emits, emitTime e ≤ now) :
-    let a := (All.new n dur pn pdur psize mh).feed emits
-    (a.run.sums now).2 = kinds.map (fun k => rolling n (tdiv dur n) (histOf emits) k now) := by
-  intro a
-  rw [sums_snd]
-  apply List.map_congr_left
-  intro k _
-  exact rolling_getR k n dur pn pdur psize mh hn hw emits now h0 (fun k t d h => hle _ h)
-
-/-- ERROR PERCENTAGE: the double the code computes is the correctly rounded quotient (failures+timeouts) /
-    (successes+failures+timeouts), and 0 when there were no attempts (counts below 2^53) -/
-theorem error_percentage_correct (s f t : Int) (hs : 0 ≤ s) (hf : 0 ≤ f) (ht : 0 ≤ t) (hb : s + f + t ≤ 9007199254740992) :
-    Cons.errorPercentage s f t = (if s + f + t = 0 then 0 else F64.rne (((f + t : Int) : Rat) / ((s + f + t : Int) : Rat))) := by
-  exact errorPercentage_eq s f t hs hf ht hb
-
-/-- so it lies in [0,1] -/
-theorem error_percentage_bounds (s f t : Int) (hs : 0 ≤ s) (hf : 0 ≤ f) (ht : 0 ≤ t) (hb : s + f + t ≤ 9007199254740992) :
-    0 ≤ Cons.errorPercentage s f t ∧ Cons.errorPercentage s f t ≤ 1 := by
-  exact errorPercentage_bounds s f t hs hf ht hb
-
-/-- SLO TABLE: after ANY history the tracker counts a pass for each success within MaximumHealthyTime and a fail for
-    each slower success, failure, timeout, rejection, short-circuit and interrupt longer than that time — nothing else -/
-theorem slo_table (n : Nat) (dur : Int) (pn : Nat) (pdur : Int) (psize : Nat) (mh : Int) (emits : List Emit) :
-    let a := (All.new n dur pn pdur psize mh).feed emits
-    a.slo.pass = sloPass mh (histOf emits) ∧ a.slo.fail = sloFail mh (histOf emits) ∧ a.slo.maxHealthy = mh := by
-  exact slo_feed n dur pn pdur psize mh emits
-
-/-- bad requests and fast interrupts move neither SLO count -/
-theorem slo_ignores (s : Slo) (k : Kind) (d : Int) (h : k = .badRequest ∨ (k = .interrupt ∧ d ≤ s.maxHealthy)) :
-    s.onRun k d = s := by
-  rcases h with rfl | ⟨rfl, hd⟩
-  · rfl
-  · have : ¬ d > s.maxHealthy := by omega
-    simp only [Slo.onRun, if_neg this]
-
-example : ((All.new 2 20 1 20 2 5).feed [.run .success 1 3, .run .success 2 9, .run .interrupt 3 9, .run .badRequest 4 99, .fb .failure 5 1]).slo.fail = 2 := by decide
-
-end CM.Props.C20
+/- Props/C20.lean — property C20: all theorems live in namespace CM.Props.C20, split over two files. -/
+import CircuitProofs.Props.C20Base
+import CircuitProofs.Props.C20Stream
